@@ -102,6 +102,20 @@ type userOp struct{ text, ctx string }
 func (u userOp) String() string  { return u.text }
 func (u userOp) Context() string { return u.ctx }
 
+// an operator whose text the history can change after it was accepted
+type flipOp struct {
+	w    *World
+	name string
+}
+
+func (f flipOp) String() string {
+	if t, ok := f.w.flipText[f.name]; ok {
+		return t
+	}
+	return "~" + f.name
+}
+func (f flipOp) Context() string { return "flip" }
+
 // a type with a String method (stringer expression / keyword)
 type strer struct{ s string }
 
@@ -219,6 +233,8 @@ func (w *World) val(v Val) any {
 			ctx = ""
 		}
 		return userOp{v.S, ctx}
+	case "fop":
+		return flipOp{w, v.S}
 	case "strer":
 		if v.D == 1 {
 			return strer2{v.S, 1}
@@ -385,6 +401,8 @@ func (w *World) describeD(x any, depth int) string {
 		return "op" + strconv.Itoa(int(v))
 	case userOp:
 		return "uop(" + v.text + "," + v.ctx + ")"
+	case flipOp:
+		return "fop(" + v.name + ")"
 	case strer:
 		return "strer(" + v.s + ")"
 	case strer2:
